@@ -493,7 +493,7 @@ impl Sys for TaskSys {
                     (Ok(_), Err(e)) => return Err(format!("mutator-failed: {m:?} failed: {e:#}")),
                     (Ok(exp_ops), Ok(())) => {
                         let after_real = task_props(&sess.task);
-                        props_match(&after_real, &model, sess.t0, now).map_err(|e| format!("{e} (after {m:?} on {before_real:?})"))?;
+                        props_match(&after_real, &model, now - 3600, now).map_err(|e| format!("{e} (after {m:?} on {before_real:?})"))?;
                         // recorded operations: property/new value as the model says, old value = what the property really held
                         let new_ops = &sess.ops[n_ops..];
                         if new_ops.len() != exp_ops.len() {
@@ -611,7 +611,7 @@ impl Session {
         self.held
             .iter()
             .map(|(k, v)| {
-                let is_clock = CLOCK_PROPS.contains(&k.as_str()) && v.parse::<i64>().is_ok_and(|x| x >= self.t0 - 1 && x <= now + 1);
+                let is_clock = CLOCK_PROPS.contains(&k.as_str()) && v.parse::<i64>().is_ok_and(|x| x > now - 3600 && x <= now + 1);
                 (k.clone(), if is_clock { NOW.to_string() } else { v.clone() })
             })
             .collect()
@@ -687,7 +687,7 @@ pub fn run(opts: &Opts) -> i32 {
             let r1 = replay_trace(&sys, &f.trace, false);
             let r2 = replay_trace(&sys, &f.trace, false);
             if r1.is_ok() || r2.is_ok() || r1.as_ref().err().map(|e| e.split(':').next().map(|s| s.to_string())) != r2.as_ref().err().map(|e| e.split(':').next().map(|s| s.to_string())) {
-                eprintln!("MACHINERY ERROR: C19 violation does not replay deterministically ({:?} vs {:?})", r1, r2);
+                eprintln!("MACHINERY ERROR: C19 violation does not replay deterministically ({:?} vs {:?}); found: {} trace {:?}", r1, r2, f.what, f.trace);
                 std::process::exit(2);
             }
             rep.violation(Violation::new(
